@@ -53,8 +53,13 @@ def tables_(P, chk):
         st = lookup_state(b, bb)
         if v == "Ok":
             pay = rv["fields"][0]["op"]
+            ins_sites = [x for x, t_ in b.calls() if callee_def(t_) == "std::collections::HashMap::insert" or
+                         IS + "::insert_canonical_impl" in callee_names(t_)]
             if q.all_roots(b, pay, lambda r: r.kind == "call" and r.name == IS + "::insert_canonical_impl"):
                 got[st] = "insert"
+            elif ins_sites and any(b.must_pass_block(bb, x) for x in ins_sites) and \
+                    not any(r.kind == "call" and r.name == IS + "::get" for r in prov(b, pay)):
+                got[st] = "insert"      # the record is written on every path to this Ok (helper folded in / merged helper)
             elif q.all_roots(b, pay, lambda r: r.kind == "call" and r.name == IS + "::get" and "#Canonical" in r.fields):
                 got[st] = "reuse"
             else:
@@ -122,7 +127,18 @@ def tables_(P, chk):
         if t["k"] == "call" and t["dest"]["l"] == 0:
             lab = [labs for roots, labs in q.variant_guards(b, i) if any(r.kind == "call" and r.name == IS + "::resolve" for r in roots)]
             got[lab[0] if lab else None] = "call:" + (callee(t) or "")
-    ok = got.get(("None",)) == "call:" + IS + "::insert_canonical_impl" and "resolve" in got.get(("Some",), "") and len(got) == 2
+    none_v = got.get(("None",), "")
+    if none_v != "call:" + IS + "::insert_canonical_impl":
+        # the insert written in line / through a merged helper: on the None arm a record is written before the value is made
+        ins_sites = [x for x, t_ in b.calls() if callee_def(t_) == "std::collections::HashMap::insert"]
+        for i in sorted(b.live_blocks()):
+            writes0 = [st_ for st_ in b.blocks[i]["stmts"] if st_["k"] == "assign" and st_["place"]["l"] == 0 and not st_["place"]["p"]]
+            t_ = b.term(i)
+            if writes0 or (t_["k"] == "call" and t_["dest"]["l"] == 0):
+                lab = [labs for roots, labs in q.variant_guards(b, i) if any(r.kind == "call" and r.name == IS + "::resolve" for r in roots)]
+                if lab and lab[0] == ("None",) and ins_sites and any(b.must_pass_block(i, x) for x in ins_sites):
+                    none_v = "call:" + IS + "::insert_canonical_impl"
+    ok = none_v == "call:" + IS + "::insert_canonical_impl" and "resolve" in got.get(("Some",), "") and len(got) == 2
     chk.require(ok, R_TAB, "ensure|resolve or insert canonical", b.loc(), "ensure behaves as %s" % got, "Some(found) -> found; None -> insert_canonical_impl(value)")
     # resolve = get()?.as_canonical()
     b = P.body(IS + "::resolve")
